@@ -1040,6 +1040,16 @@ func (interp *Interpreter) cfg(root *node, sc *scope, importPath, pkgName string
 				}
 			case aGreater, aGreaterEqual, aLower, aLowerEqual:
 				n.typ = sc.getType("bool")
+			default:
+				// The result has the type of a typed operand, whatever the type
+				// expected by the context, set at pre-order.
+				switch {
+				case n.typ == nil || isInterface(n.typ):
+				case !c0.typ.untyped:
+					n.typ = c0.typ
+				case !c1.typ.untyped:
+					n.typ = c1.typ
+				}
 			}
 			if err != nil {
 				break
